@@ -93,7 +93,42 @@ proof! {
 	}
 }
 
+proof! {
+	[alloc] fn frame_header_writer_matches_reader() {
+		// every frame header the reader accepts is reproduced byte for byte by the writer
+		// (MsgHeader::write): magic, type and length are written where the reader looks for them
+		let ct = env::any_chain_type();
+		env::set_chain_type(ct);
+		let b: [u8; 11] = nd::any();
+		env::alloc_limit(1024);
+		let r = ser::deserialize::<MsgHeaderWrapper, _>(&mut &b[..], ProtocolVersion(1), DeserializationMode::default());
+		if let Ok(MsgHeaderWrapper::Known(h)) = &r {
+			let mut out = [0u8; 11];
+			let left = {
+				let mut sink: &mut [u8] = &mut out[..];
+				ser::serialize(&mut sink, ProtocolVersion(1), h).expect("serialises");
+				sink.len()
+			};
+			check!(left == 0, "a frame header is 11 bytes");
+			let i: usize = nd::any();
+			nd::assume(i < 11);
+			check!(out[i] == b[i], "the writer reproduces the accepted header");
+			// and a header built for the same type and length is the same header
+			let h2 = msg::MsgHeader::new(h.msg_type, h.msg_len);
+			let mut out2 = [0u8; 11];
+			{
+				let mut sink: &mut [u8] = &mut out2[..];
+				ser::serialize(&mut sink, ProtocolVersion(1), &h2).expect("serialises");
+			}
+			check!(out2[i] == b[i], "MsgHeader::new stamps this network's magic");
+			cover!(true, "some header accepted");
+		}
+		core::mem::forget(r);
+	}
+}
+
 pub const HARNESSES: &[(&str, fn())] = &[
+	("c19::frame_header_writer_matches_reader", frame_header_writer_matches_reader),
 	("c19::frame_header_limits", frame_header_limits),
 	("c19::read_message_wrong_type_refused", read_message_wrong_type_refused),
 ];
